@@ -340,6 +340,7 @@ func siteCases(c *core.Ctx, in *inputs) {
 	siteCase(c, "comparetipindexes", map[string]string{"tree": in.tree, "tree2": in.rooted}, nil)
 	siteCase(c, "rename", map[string]string{"tree": in.tree, "map": in.mapfile + "absent\tzzz\n"}, nil)
 	siteCase(c, "rename", map[string]string{"tree": in.named, "map": in.mapfile + "I1\tinner1\nI2\tinner2\n"}, nil)
+	siteCase(c, "rename", map[string]string{"tree": in.tree, "map": in.chainmap}, nil)
 	siteCase(c, "asrtip", map[string]string{"tree": in.tree, "align": in.protein}, nil)
 	siteCase(c, "asrtip", map[string]string{"tree": in.rooted, "align": in.nucl}, nil)
 	if c.Gotree != "" {
